@@ -311,3 +311,332 @@ Proof.
   eexists. eexists. split; [vm_compute; reflexivity|]. split; [vm_compute; reflexivity|].
   vm_compute. repeat split; discriminate.
 Qed.
+
+(* ---- IR (software interrupt) ---------------------------------------------------------------------- *)
+Definition ir_prog : list stmt :=
+  [SPush 3 (EReg 3 gPC);
+   SPush 1 (EBin B_OR 1 IL.F0 (EFlag true) (EBin B_LSL 1 IL.F0 (EFlag false) (EConst 1 1)));
+   SPush 1 (ELoad 1 (EConstPtr 3 1048827));
+   SStore 1 (EConstPtr 3 1048827) (EBin B_AND 1 IL.F0 (ELoad 1 (EConstPtr 3 1048827)) (EConst 1 127));
+   SJump (ELoad 3 (EConstPtr 3 1048570))].
+
+Lemma ir_lift addr : lift_instr (mk_instr 254 [] 1) addr = Some ir_prog.
+Proof. vm_compute. reflexivity. Qed.
+
+Lemma ir_table : d_cls (entry_of 254) = I_IR /\ d_cls (entry_of 1) = I_RETI.
+Proof. vm_compute. split; reflexivity. Qed.
+
+Lemma flag01 s c : get_flag s c = 0 \/ get_flag s c = 1.
+Proof. pose proof (flag_range s c). lia. Qed.
+
+Lemma flag_byte_val (c z : Z) : (c = 0 \/ c = 1) -> (z = 0 \/ z = 1) ->
+  Z.lor c (band (Z.shiftl z 1) (maskw 1)) = c + 2 * z.
+Proof. intros [-> | ->] [-> | ->]; reflexivity. Qed.
+
+Lemma eval_flag_byte s :
+  eval_expr (EBin B_OR 1 IL.F0 (EFlag true) (EBin B_LSL 1 IL.F0 (EFlag false) (EConst 1 1))) s =
+  Some (get_flag s true + 2 * get_flag s false, s).
+Proof.
+  cbn [eval_expr eval_binop apply_flags]. change (1 <? 0) with false. change (1 =? 0) with false. cbv iota.
+  rewrite flag_byte_val by apply flag01. reflexivity.
+Qed.
+
+Lemma get_flag_setr_S s v c : get_flag (setr s gS v) c = get_flag s c.
+Proof. unfold get_flag. apply getr_setr_S_other. destruct c; discriminate. Qed.
+Lemma get_flag_store w s a v c : get_flag (store w s a v) c = get_flag s c.
+Proof. unfold get_flag. apply getr_store. Qed.
+
+Ltac eqb_lia :=
+  repeat match goal with
+         | |- context [?a =? ?b] =>
+             first [ replace (a =? b) with false by (symmetry; apply Z.eqb_neq; lia)
+                   | replace (a =? b) with true by (symmetry; apply Z.eqb_eq; lia) ]
+         end.
+
+Theorem ir_exec : forall s addr,
+  wf_state s -> 5 <= getr s gS -> getr s gS <= 1048570 -> 0 <= addr -> addr + 1 < 1048576 ->
+  mem s 1048570 + 256 * (mem s 1048571 + 256 * mem s 1048572) < 1048576 ->
+  exists s', exec_decoded (mk_instr 254 [] 1) 254 addr s = XOk s' /\ wf_state s' /\
+    getr s' gPC = mem s 1048570 + 256 * (mem s 1048571 + 256 * mem s 1048572) /\
+    getr s' gS = getr s gS - 5 /\
+    mem s' (getr s gS - 3) = (addr + 1) mod 256 /\ mem s' (getr s gS - 2) = ((addr + 1) / 256) mod 256 /\
+    mem s' (getr s gS - 1) = ((addr + 1) / 65536) mod 256 /\
+    mem s' (getr s gS - 4) = get_flag s true + 2 * get_flag s false /\
+    mem s' (getr s gS - 5) = mem s imr_cell /\ mem s' imr_cell = Z.land (mem s imr_cell) 127 /\
+    (forall a, ~ (getr s gS - 5 <= a < getr s gS) -> a <> imr_cell -> mem s' a = mem s a) /\
+    (forall r, r <> gS -> r <> gPC -> getr s' r = getr s r).
+Proof.
+  intros s addr [Hr Hm] H5 Htop Ha0 Ha1 Hvec.
+  change 1048827 with 1048827 in *.
+  pose proof (getr_S_range s Hr) as HS. pose proof (Hm 1048827) as HI.
+  pose proof (flag_range s true) as HC. pose proof (flag_range s false) as HZ.
+  pose proof (Hm 1048570) as V0. pose proof (Hm 1048571) as V1. pose proof (Hm 1048572) as V2.
+  unfold exec_decoded. change (254 =? 239)%N with false. cbv iota. rewrite ir_lift.
+  cbn [i_len mk_instr]. change (Z.of_nat 1) with 1.
+  set (s1 := setr (setr s gPC (Z.land addr (Z.of_N py_pc_mask))) gPC (addr + 1)).
+  assert (S1S : getr s1 gS = getr s gS) by (subst s1; rewrite !getr_setr_PC_other by discriminate; reflexivity).
+  assert (S1P : getr s1 gPC = addr + 1) by (subst s1; apply getr_setr_PC; lia).
+  assert (S1w : mem_wf s1) by (subst s1; apply mem_wf_setr; apply mem_wf_setr; exact Hm).
+  assert (S1r : regs_wf (rg s1)) by (subst s1; apply regs_wf_setr_PC; apply regs_wf_setr_PC; exact Hr).
+  assert (S1f : forall c, get_flag s1 c = get_flag s c).
+  { intros c. subst s1. unfold get_flag. rewrite !getr_setr_PC_other by (destruct c; discriminate). reflexivity. }
+  set (S0 := getr s gS) in *. set (I0 := mem s 1048827) in *.
+  set (FB := get_flag s true + 2 * get_flag s false).
+  set (vec := mem s 1048570 + 256 * (mem s 1048571 + 256 * mem s 1048572)) in *.
+  (* 1: push PC *)
+  set (u1 := setr (store 3 s1 (S0 - 3) (addr + 1)) gS (S0 - 3)).
+  assert (E1 : exec_stmt (SPush 3 (EReg 3 gPC)) s1 = Some (u1, ONext)).
+  { cbn [exec_stmt eval_expr]. rewrite S1P, S1S. reflexivity. }
+  assert (U1S : getr u1 gS = S0 - 3) by (subst u1; apply getr_setr_S; lia).
+  assert (U1w : mem_wf u1) by (subst u1; apply mem_wf_setr; apply mem_wf_store; exact S1w).
+  assert (U1r : regs_wf (rg u1)) by (subst u1; apply regs_wf_setr_S; apply regs_wf_store; exact S1r).
+  assert (U1f : forall c, get_flag u1 c = get_flag s c).
+  { intros c. subst u1. rewrite get_flag_setr_S, get_flag_store. apply S1f. }
+  (* 2: push C | Z<<1 *)
+  set (u2 := setr (store 1 u1 (S0 - 4) FB) gS (S0 - 4)).
+  assert (E2 : exec_stmt (SPush 1 (EBin B_OR 1 IL.F0 (EFlag true) (EBin B_LSL 1 IL.F0 (EFlag false) (EConst 1 1)))) u1 = Some (u2, ONext)).
+  { cbn [exec_stmt]. rewrite eval_flag_byte. rewrite !U1f, U1S. subst u2 FB. replace (S0 - 3 - Z.of_N 1) with (S0 - 4) by lia. reflexivity. }
+  assert (U2S : getr u2 gS = S0 - 4) by (subst u2; apply getr_setr_S; lia).
+  assert (U2w : mem_wf u2) by (subst u2; apply mem_wf_setr; apply mem_wf_store; exact U1w).
+  assert (U2r : regs_wf (rg u2)) by (subst u2; apply regs_wf_setr_S; apply regs_wf_store; exact U1r).
+  assert (U2m : forall x, mem u2 x = if x =? S0 - 4 then FB else
+                                     if x =? S0 - 3 + 1 + 1 then ((addr + 1) / 65536) mod 256 else
+                                     if x =? S0 - 3 + 1 then ((addr + 1) / 256) mod 256 else
+                                     if x =? S0 - 3 then (addr + 1) mod 256 else mem s x).
+  { intros x. subst u2 u1. rewrite mem_setr, mem_store1, mem_setr, mem_store3.
+    replace (FB mod 256) with FB by (symmetry; apply Z.mod_small; subst FB; lia). reflexivity. }
+  (* 3: push IMR *)
+  set (u3 := setr (store 1 (logged u2 [1048827]) (S0 - 5) I0) gS (S0 - 5)).
+  assert (E3 : exec_stmt (SPush 1 (ELoad 1 (EConstPtr 3 1048827))) u2 = Some (u3, ONext)).
+  { cbn [exec_stmt eval_expr]. rewrite load_1 by exact U2w. rewrite getr_logged, U2S.
+    replace (mem u2 1048827) with I0.
+    - subst u3. replace (S0 - 4 - Z.of_N 1) with (S0 - 5) by lia. reflexivity.
+    - rewrite U2m.
+    eqb_lia. reflexivity. }
+  assert (U3S : getr u3 gS = S0 - 5) by (subst u3; apply getr_setr_S; lia).
+  assert (U3w : mem_wf u3) by (subst u3; apply mem_wf_setr; apply mem_wf_store; exact U2w).
+  assert (U3r : regs_wf (rg u3)) by (subst u3; apply regs_wf_setr_S; apply regs_wf_store; exact U2r).
+  assert (U3m : forall x, mem u3 x = if x =? S0 - 5 then I0 else mem u2 x).
+  { intros x. subst u3. rewrite mem_setr, mem_store1, mem_logged. rewrite (Z.mod_small I0 256) by exact HI. reflexivity. }
+  (* 4: IMR := IMR & 0x7F *)
+  set (u4 := store 1 (logged u3 [1048827]) 1048827 (Z.land I0 127)).
+  assert (M3I : mem u3 1048827 = I0).
+  { rewrite U3m, U2m.
+    eqb_lia. reflexivity. }
+  assert (E4 : exec_stmt (SStore 1 (EConstPtr 3 1048827) (EBin B_AND 1 IL.F0 (ELoad 1 (EConstPtr 3 1048827)) (EConst 1 127))) u3 = Some (u4, ONext)).
+  { cbn [exec_stmt eval_expr]. rewrite load_1 by exact U3w. cbn [eval_binop apply_flags].
+    rewrite M3I. subst u4. reflexivity. }
+  assert (U4w : mem_wf u4) by (subst u4; apply mem_wf_store; exact U3w).
+  assert (L127 : 0 <= Z.land I0 127 < 256).
+  { split; [apply Z.land_nonneg; lia|]. change 127 with (Z.ones 7). rewrite Z.land_ones by lia.
+    pose proof (Z.mod_pos_bound I0 (2 ^ 7) ltac:(lia)). change (2 ^ 7) with 128 in *. lia. }
+  assert (U4m : forall x, mem u4 x = if x =? 1048827 then Z.land I0 127 else mem u3 x).
+  { intros x. subst u4. rewrite mem_store1, mem_logged. rewrite Z.mod_small by exact L127. reflexivity. }
+  (* 5: jump through the vector *)
+  set (u5 := setr (logged u4 [1048570; 1048570 + 1; 1048570 + 1 + 1]) gPC vec).
+  assert (Mv : forall x, 1048570 <= x <= 1048572 -> mem u4 x = mem s x).
+  { intros x Hx. rewrite U4m, U3m, U2m.
+    eqb_lia. reflexivity. }
+  assert (E5 : exec_stmt (SJump (ELoad 3 (EConstPtr 3 1048570))) u4 = Some (u5, ONext)).
+  { cbn [exec_stmt eval_expr]. rewrite load_3 by exact U4w. subst u5.
+    rewrite (Mv 1048570) by lia. rewrite (Mv (1048570 + 1)) by lia. rewrite (Mv (1048570 + 1 + 1)) by lia. reflexivity. }
+  destruct (fuel_split ir_prog s1 6) as [j Hj]; [cbn; lia|]. rewrite Hj.
+  replace (6 + j)%nat with (S (S (S (S (S (S j)))))) by lia.
+  unfold ir_prog. cbn [run nth_error]. rewrite E1. cbn [nth_error]. rewrite E2. cbn [nth_error]. rewrite E3. cbn [nth_error].
+  rewrite E4. cbn [nth_error]. rewrite E5. cbn [nth_error].
+  exists u5. split; [destruct j; reflexivity|].
+  assert (U5m : forall x, mem u5 x = mem u4 x) by (intros x; reflexivity).
+  split; [|split; [|split; [|split; [|split; [|split; [|split; [|split; [|split; [|split]]]]]]]]].
+  - split.
+    + subst u5. apply regs_wf_setr_PC. unfold logged; cbn [rg]. subst u4. rewrite rg_store. exact U3r.
+    + intros x. rewrite U5m. apply U4w.
+  - subst u5. apply getr_setr_PC. subst vec. lia.
+  - subst u5. rewrite getr_setr_PC_other by discriminate. rewrite getr_logged. subst u4. rewrite getr_store, getr_logged. exact U3S.
+  - rewrite U5m, U4m, U3m, U2m.
+    eqb_lia. reflexivity.
+  - rewrite U5m, U4m, U3m, U2m.
+    eqb_lia. reflexivity.
+  - rewrite U5m, U4m, U3m, U2m.
+    eqb_lia. reflexivity.
+  - rewrite U5m, U4m, U3m, U2m.
+    eqb_lia. reflexivity.
+  - rewrite U5m, U4m, U3m.
+    eqb_lia. reflexivity.
+  - rewrite U5m, U4m. eqb_lia. reflexivity.
+  - intros a Ha Hai. change imr_cell with 1048827 in Hai. rewrite U5m, U4m, U3m, U2m.
+    eqb_lia. reflexivity.
+  - intros r H1 H2. subst u5. rewrite getr_setr_PC_other by exact H2. rewrite getr_logged. subst u4. rewrite getr_store, getr_logged.
+    subst u3. rewrite getr_setr_S_other by exact H1. rewrite getr_store, getr_logged.
+    subst u2. rewrite getr_setr_S_other by exact H1. rewrite getr_store.
+    subst u1. rewrite getr_setr_S_other by exact H1. rewrite getr_store.
+    subst s1. rewrite !getr_setr_PC_other by exact H2. reflexivity.
+Qed.
+
+(* ---- flag writes (all 256 values of F, both flags, both values: evaluated in the kernel) ---------- *)
+Definition flag_laws_ok (f : N) : bool :=
+  forallb (fun v => ((set_b0 f v mod 2 =? v) && ((set_b0 f v / 2) mod 2 =? (f / 2) mod 2) && (set_b0 f v <? 256) &&
+                     ((set_b1 f v / 2) mod 2 =? v) && (set_b1 f v mod 2 =? f mod 2) && (set_b1 f v <? 256))%N) [0%N; 1%N].
+
+Lemma flag_laws_sweep : forallb flag_laws_ok (upN 256) = true.
+Proof. vm_compute. reflexivity. Qed.
+
+Lemma flag_laws f v : (f < 256)%N -> (v = 0 \/ v = 1)%N ->
+  (set_b0 f v mod 2 = v /\ (set_b0 f v / 2) mod 2 = (f / 2) mod 2 /\ set_b0 f v < 256 /\
+   (set_b1 f v / 2) mod 2 = v /\ set_b1 f v mod 2 = f mod 2 /\ set_b1 f v < 256)%N.
+Proof.
+  intros Hf Hv. pose proof flag_laws_sweep as H. rewrite forallb_forall in H.
+  specialize (H f (upN_in 256 f Hf)). unfold flag_laws_ok in H. rewrite forallb_forall in H.
+  assert (Hin : In v [0%N; 1%N]) by (destruct Hv as [-> | ->]; cbn; auto).
+  specialize (H v Hin). rewrite !andb_true_iff in H. destruct H as (((((A & B) & C) & D) & E) & F).
+  apply N.eqb_eq in A, B, D, E. apply N.ltb_lt in C, F. repeat split; assumption.
+Qed.
+
+Lemma set_flag_laws s c (b : bool) : regs_wf (rg s) ->
+  get_flag (set_flag s c (b2z b)) c = b2z b /\
+  get_flag (set_flag s c (b2z b)) (negb c) = get_flag s (negb c) /\
+  regs_wf (rg (set_flag s c (b2z b))) /\
+  (forall r, is_flagreg r = false -> getr (set_flag s c (b2z b)) r = getr s r) /\
+  mem (set_flag s c (b2z b)) = mem s.
+Proof.
+  intros [(H1 & H2 & H3 & H4 & H5 & H6 & H7 & H8) HT].
+  assert (Hv : Z.to_N (b2z b mod 4294967296) = (if b then 1 else 0)%N) by (destruct b; reflexivity).
+  assert (Hv' : ((if b then 1 else 0) = 0 \/ (if b then 1 else 0) = 1)%N) by (destruct b; auto).
+  pose proof (flag_laws (y_f (rg s)) (if b then 1 else 0)%N H8 Hv') as (A & B & C & D & E & F).
+  unfold get_flag, set_flag, getr, setr, with_rg. cbn [rg mem]. rewrite Hv.
+  destruct (rg s) as [ba i x y u sp pc f t]. cbn [y_f y_ba y_i y_x y_y y_u y_s y_pc y_t] in *.
+  destruct c; cbn [negb py_set py_get y_f].
+  - repeat split; try assumption.
+    + rewrite A. destruct b; reflexivity.
+    + rewrite B. reflexivity.
+    + intros r Hr. destruct r; try reflexivity; discriminate.
+  - repeat split; try assumption.
+    + rewrite D. destruct b; reflexivity.
+    + rewrite E. reflexivity.
+    + intros r Hr. destruct r; try reflexivity; discriminate.
+Qed.
+
+(* ---- RETI from any state that has an interrupt frame (IMR, F, PC) at the stack pointer ------------ *)
+Theorem reti_exec : forall t raddr R,
+  wf_state t -> getr t gS + 5 < 1048576 -> 0 <= raddr -> raddr + 1 < 1048576 -> 0 <= R < 1048576 ->
+  mem t (getr t gS + 2) = R mod 256 -> mem t (getr t gS + 3) = (R / 256) mod 256 -> mem t (getr t gS + 4) = (R / 65536) mod 256 ->
+  exists t', exec_decoded (mk_instr 1 [] 1) 1 raddr t = XOk t' /\
+    getr t' gPC = R /\ getr t' gS = getr t gS + 5 /\
+    get_flag t' true = b2z (negb (Z.land (mem t (getr t gS + 1)) 1 =? 0)) /\
+    get_flag t' false = b2z (negb (Z.land (mem t (getr t gS + 1)) 2 =? 0)) /\
+    mem t' imr_cell = mem t (getr t gS) /\ (forall a, a <> imr_cell -> mem t' a = mem t a) /\
+    (forall r, r <> gS -> r <> gPC -> is_temp r = false -> is_flagreg r = false -> getr t' r = getr t r).
+Proof.
+  intros t raddr R [Hr Hm] HS5 Hr0 Hr1 HR M2 M3 M4.
+  change imr_cell with 1048827 in *.
+  pose proof (getr_S_range t Hr) as HS.
+  set (S0 := getr t gS) in *. set (I0 := mem t S0) in *. set (Fv := mem t (S0 + 1)) in *.
+  pose proof (Hm S0) as HI. pose proof (Hm (S0 + 1)) as HF. fold I0 in HI. fold Fv in HF.
+  unfold exec_decoded. change (1 =? 239)%N with false. cbv iota. rewrite reti_lift.
+  cbn [i_len mk_instr]. change (Z.of_nat 1) with 1.
+  set (t1 := setr (setr t gPC (Z.land raddr (Z.of_N py_pc_mask))) gPC (raddr + 1)).
+  assert (T1S : getr t1 gS = S0) by (subst t1; rewrite !getr_setr_PC_other by discriminate; reflexivity).
+  assert (T1w : mem_wf t1) by (subst t1; apply mem_wf_setr; apply mem_wf_setr; exact Hm).
+  assert (T1r : regs_wf (rg t1)) by (subst t1; apply regs_wf_setr_PC; apply regs_wf_setr_PC; exact Hr).
+  assert (T1o : forall r, r <> gPC -> getr t1 r = getr t r).
+  { intros r H2. subst t1. rewrite !getr_setr_PC_other by exact H2. reflexivity. }
+  destruct (fuel_split reti_prog t1 6) as [j Hj]; [cbn; lia|]. rewrite Hj.
+  (* 1: IMR := pop *)
+  set (u1 := store 1 (setr (logged t1 [S0]) gS (S0 + 1)) 1048827 I0).
+  assert (E1 : exec_stmt (SStore 1 (EConstPtr 3 1048827) (EPop 1)) t1 = Some (u1, ONext)).
+  { cbn [exec_stmt eval_expr]. rewrite load_1 by exact T1w. rewrite T1S. subst u1. reflexivity. }
+  assert (U1S : getr u1 gS = S0 + 1) by (subst u1; rewrite getr_store; apply getr_setr_S; lia).
+  assert (U1w : mem_wf u1) by (subst u1; apply mem_wf_store; apply mem_wf_setr; exact T1w).
+  assert (U1r : regs_wf (rg u1)) by (subst u1; apply regs_wf_store; apply regs_wf_setr_S; exact T1r).
+  assert (U1m : forall a, mem u1 a = if a =? 1048827 then I0 else mem t a).
+  { intros a. subst u1. rewrite mem_store1, mem_setr. rewrite (Z.mod_small I0 256) by exact HI. reflexivity. }
+  assert (U1o : forall r, r <> gS -> r <> gPC -> getr u1 r = getr t r).
+  { intros r H1 H2. subst u1. rewrite getr_store, getr_setr_S_other by exact H1. rewrite getr_logged. apply T1o; assumption. }
+  (* 2: TEMP0 := pop *)
+  set (u2 := setr (setr (logged u1 [S0 + 1]) gS (S0 + 1 + 1)) (gTEMP 0) Fv).
+  assert (E2 : exec_stmt (SSetReg 1 (gTEMP 0) (EPop 1)) u1 = Some (u2, ONext)).
+  { cbn [exec_stmt eval_expr]. rewrite load_1 by exact U1w. rewrite U1S. subst u2.
+    replace (mem u1 (S0 + 1)) with Fv; [reflexivity|]. rewrite U1m. eqb_lia. reflexivity. }
+  assert (U2S : getr u2 gS = S0 + 2).
+  { subst u2. rewrite getr_setr_temp_other by reflexivity. rewrite getr_setr_S by lia. lia. }
+  assert (U2T : getr u2 (gTEMP 0) = Fv).
+  { subst u2. apply getr_setr_T0; [|exact HF]. apply regs_wf_setr_S. exact U1r. }
+  assert (U2w : mem_wf u2) by (subst u2; apply mem_wf_setr; apply mem_wf_setr; exact U1w).
+  assert (U2r : regs_wf (rg u2)) by (subst u2; apply regs_wf_setr_T0; apply regs_wf_setr_S; exact U1r).
+  assert (U2o : forall r, r <> gS -> r <> gPC -> is_temp r = false -> getr u2 r = getr t r).
+  { intros r H1 H2 H3. subst u2. rewrite getr_setr_temp_other by exact H3. rewrite getr_setr_S_other by exact H1.
+    rewrite getr_logged. apply U1o; assumption. }
+  (* 3, 4: C, Z from TEMP0 *)
+  set (bC := negb (Z.land Fv 1 =? 0)). set (bZ := negb (Z.land Fv 2 =? 0)).
+  set (u3 := set_flag u2 true (b2z bC)). set (u4 := set_flag u3 false (b2z bZ)).
+  assert (E3 : exec_stmt (SSetFlag true (EBin B_AND 1 IL.F0 (EReg 1 (gTEMP 0)) (EConst 1 1))) u2 = Some (u3, ONext)).
+  { cbn [exec_stmt eval_expr eval_binop apply_flags]. rewrite U2T. reflexivity. }
+  destruct (set_flag_laws u2 true bC U2r) as (F3c & F3z & U3r & U3o & U3m). fold u3 in F3c, F3z, U3r, U3o, U3m.
+  assert (E4 : exec_stmt (SSetFlag false (EBin B_AND 1 IL.F0 (EReg 1 (gTEMP 0)) (EConst 1 2))) u3 = Some (u4, ONext)).
+  { cbn [exec_stmt eval_expr eval_binop apply_flags]. rewrite U3o by reflexivity. rewrite U2T. reflexivity. }
+  destruct (set_flag_laws u3 false bZ U3r) as (F4z & F4c & U4r & U4o & U4m). fold u4 in F4z, F4c, U4r, U4o, U4m.
+  cbn [negb] in F3z, F4c.
+  assert (U4S : getr u4 gS = S0 + 2) by (rewrite U4o by reflexivity; rewrite U3o by reflexivity; exact U2S).
+  assert (U4w : mem_wf u4) by (intros a; rewrite U4m, U3m; apply U2w).
+  (* 5: RET pop3 *)
+  set (u5 := setr (setr (logged u4 [S0 + 2; S0 + 2 + 1; S0 + 2 + 1 + 1]) gS (S0 + 2 + 3)) gPC R).
+  assert (E5 : exec_stmt (SRet (EPop 3)) u4 = Some (u5, ONext)).
+  { cbn [exec_stmt eval_expr]. rewrite load_3 by exact U4w. rewrite U4S. subst u5.
+    replace (mem u4 (S0 + 2) + 256 * (mem u4 (S0 + 2 + 1) + 256 * mem u4 (S0 + 2 + 1 + 1))) with R; [reflexivity|].
+    rewrite U4m, U3m. change (mem u2) with (mem u1). rewrite !U1m. eqb_lia.
+    replace (S0 + 2 + 1) with (S0 + 3) by lia. replace (S0 + 3 + 1) with (S0 + 4) by lia.
+    rewrite M2, M3, M4. symmetry. apply three_bytes. exact HR. }
+  exists u5. split.
+  - replace (6 + j)%nat with (S (S (S (S (S (S j)))))) by lia.
+    unfold reti_prog. cbn [run nth_error]. change imr_cell with 1048827.
+    rewrite E1. cbn [nth_error]. rewrite E2. cbn [nth_error]. rewrite E3. cbn [nth_error]. rewrite E4.
+    cbn [nth_error]. rewrite E5. cbn [nth_error]. destruct j; reflexivity.
+  - assert (U5f : forall c, get_flag u5 c = get_flag u4 c).
+    { intros c. subst u5. unfold get_flag. rewrite getr_setr_PC_other by (destruct c; discriminate).
+      rewrite getr_setr_S_other by (destruct c; discriminate). apply getr_logged. }
+    split; [|split; [|split; [|split; [|split; [|split]]]]].
+    + subst u5. apply getr_setr_PC. exact HR.
+    + subst u5. rewrite getr_setr_PC_other by discriminate. rewrite getr_setr_S by lia. lia.
+    + rewrite U5f, F4c. exact F3c.
+    + rewrite U5f. exact F4z.
+    + subst u5. rewrite !mem_setr, mem_logged, U4m, U3m. change (mem u2) with (mem u1). rewrite U1m. eqb_lia. reflexivity.
+    + intros a Ha. subst u5. rewrite !mem_setr, mem_logged, U4m, U3m. change (mem u2) with (mem u1). rewrite U1m. eqb_lia. reflexivity.
+    + intros r H1 H2 H3 H4. subst u5. rewrite getr_setr_PC_other by exact H2. rewrite getr_setr_S_other by exact H1.
+      rewrite getr_logged. rewrite U4o by exact H4. rewrite U3o by exact H4. apply U2o; assumption.
+Qed.
+
+Lemma flag_bit0 c z : (c = 0 \/ c = 1) -> (z = 0 \/ z = 1) -> b2z (negb (Z.land (c + 2 * z) 1 =? 0)) = c.
+Proof. intros [-> | ->] [-> | ->]; reflexivity. Qed.
+Lemma flag_bit1 c z : (c = 0 \/ c = 1) -> (z = 0 \/ z = 1) -> b2z (negb (Z.land (c + 2 * z) 2 =? 0)) = z.
+Proof. intros [-> | ->] [-> | ->]; reflexivity. Qed.
+
+(* IR ; <any handler that leaves S at the frame and the five frame bytes alone> ; RETI:
+   resumes at the instruction after the IR with the caller's stack pointer, carry, zero and interrupt mask *)
+Theorem ir_reti_inverse : forall s addr s1,
+  wf_state s -> 5 <= getr s gS -> getr s gS <= 1048570 -> 0 <= addr -> addr + 1 < 1048576 ->
+  mem s 1048570 + 256 * (mem s 1048571 + 256 * mem s 1048572) < 1048576 ->
+  exec_decoded (mk_instr 254 [] 1) 254 addr s = XOk s1 ->
+  forall t raddr, wf_state t -> getr t gS = getr s1 gS ->
+    (forall a, getr s gS - 5 <= a < getr s gS -> mem t a = mem s1 a) ->
+    0 <= raddr -> raddr + 1 < 1048576 ->
+    exists t', exec_decoded (mk_instr 1 [] 1) 1 raddr t = XOk t' /\
+      getr t' gPC = addr + 1 /\ getr t' gS = getr s gS /\
+      get_flag t' true = get_flag s true /\ get_flag t' false = get_flag s false /\
+      mem t' imr_cell = mem s imr_cell /\ (forall a, a <> imr_cell -> mem t' a = mem t a) /\
+      (forall r, r <> gS -> r <> gPC -> is_temp r = false -> is_flagreg r = false -> getr t' r = getr t r).
+Proof.
+  intros s addr s1 Hwf H5 Htop Ha0 Ha1 Hvec Hir t raddr Twf TS Tm Hr0 Hr1.
+  destruct (ir_exec s addr Hwf H5 Htop Ha0 Ha1 Hvec) as (s1' & E & _ & _ & CS & C3 & C2 & C1 & C4 & C5 & _ & _ & _).
+  rewrite Hir in E. injection E as <-.
+  destruct Hwf as [Hr Hm]. pose proof (getr_S_range s Hr) as HS.
+  rewrite CS in TS.
+  destruct (reti_exec t raddr (addr + 1) Twf) as (t' & E' & P & S' & FC' & FZ' & MI & MO & RO); try lia.
+  - rewrite TS. replace (getr s gS - 5 + 2) with (getr s gS - 3) by lia. rewrite Tm by lia. exact C3.
+  - rewrite TS. replace (getr s gS - 5 + 3) with (getr s gS - 2) by lia. rewrite Tm by lia. exact C2.
+  - rewrite TS. replace (getr s gS - 5 + 4) with (getr s gS - 1) by lia. rewrite Tm by lia. exact C1.
+  - exists t'. split; [exact E'|]. split; [exact P|]. split; [lia|].
+    rewrite TS in FC', FZ', MI.
+    replace (getr s gS - 5 + 1) with (getr s gS - 4) in FC', FZ' by lia.
+    rewrite Tm in FC', FZ', MI by lia. rewrite C4 in FC', FZ'. rewrite C5 in MI.
+    rewrite flag_bit0 in FC' by apply flag01. rewrite flag_bit1 in FZ' by apply flag01.
+    repeat split; assumption.
+Qed.
